@@ -266,7 +266,7 @@ class TableCriterion:
 
 
 def gen_cases(tier: str, seed: int):
-    n = {"quick": 96, "thorough": 1400}[tier]
+    n = {"quick": 96, "thorough": 3000}[tier]
     rng = np.random.default_rng([seed, 1])
     maxd = {"quick": 3, "thorough": 4}[tier]
     for i in range(n):
